@@ -132,6 +132,12 @@ class Run:
       self.fr.env[a.arg] = v
     self.requires = []  # named preconditions (z3)
     self.qvars = {}
+    # thread ids exist before the body runs, so that preconditions can mention tid0, tid1, ...
+    for n in ast.walk(node):
+      if isinstance(n, ast.Assign) and isinstance(n.value, ast.Call) and ast.unparse(n.value.func) == "wp.tid":
+        tgt = n.targets[0]
+        self.ex.make_tids(len(tgt.elts) if isinstance(tgt, ast.Tuple) else 1)
+        break
     if setup is not None:
       setup(self)  # ghost functions / axioms that invariants evaluated during execution may need
     if pre:
@@ -183,9 +189,12 @@ class Run:
 
   def side_obligations(self, prefix=""):
     out = []
-    for name, hyp, goal in self.ex.side:
+    for name, hyp, goal, *rest in self.ex.side:
+      # background facts known when the obligation arose (not facts assumed later, e.g. about the
+      # state after the loop)
+      base = list(self.ex.assumes[: rest[0]]) if rest else self.assumptions()
       out.append(
-        Obligation(prefix + name, self.assumptions() + [zb(h) for h in hyp if h is not True], zb(goal), func=self.key, kind="loop-invariant")
+        Obligation(prefix + name, base + [zb(h) for h in hyp if h is not True], zb(goal), func=self.key, kind="loop-invariant", meta={"function": self.key, "source_hash": self.info.source_hash})
       )
     return out
 
